@@ -198,9 +198,6 @@ func (d *drv) latest(prev int64) int64 {
 var sigKinds = []string{"ok", "ok", "ok", "otherkey", "otherround", "garbage", "empty"}
 
 func (d *drv) trace(id int, a common.Args) {
-	// the known weakness (a registered non-sharder's valid ticket is adopted) is reached in a fixed,
-	// small set of traces, so that the rest of the run keeps checking everything else
-	defect := id == 3 || id == 13 || id == 23
 	ctx, cancel := context.WithTimeout(d.ctx, 5*time.Second)
 	tk := d.c.GetLatestLFBTicket(ctx)
 	cancel()
@@ -217,7 +214,7 @@ func (d *drv) trace(id int, a common.Args) {
 	d.base = tk.Round + 1
 	d.sent, d.n = map[string]int{}, 0
 	d.rc.TraceID = id - 1
-	d.rc.Reset(rec.M{"family": "lfbticket", "id": id, "seed": a.Seed, "steps": a.Steps, "defect_classes": defect}, rec.M{"round": 0})
+	d.rc.Reset(rec.M{"family": "lfbticket", "id": id, "seed": a.Seed, "steps": a.Steps}, rec.M{"round": 0})
 	cur := d.latest(0)
 	signers := []string{"sharder", "sharder", "self", "miner", "exsharder", "unknown"}
 	for i := 0; i < a.Steps; i++ {
@@ -234,14 +231,6 @@ func (d *drv) trace(id int, a common.Args) {
 			switch x := d.r.Intn(10); {
 			case x < 7:
 				t := tkt{Round: r, Signer: signers[d.r.Intn(len(signers))], Sig: sigKinds[d.r.Intn(len(sigKinds))]}
-				if !defect && (t.Signer == "miner" || t.Signer == "exsharder") && t.Sig == "ok" && r > cur {
-					// outside the defect traces a registered non-sharder's valid ticket is only sent
-					// with a round that cannot be adopted (the handler's verdict is still recorded)
-					t.Round = cur
-					if t.Round < 1 {
-						t.Round, t.Sig = 1, "otherkey"
-					}
-				}
 				d.submit(t)
 			case x < 9:
 				d.broadcast(r)
